@@ -654,12 +654,51 @@ def check_spawn(ctx):
     ctx.check(R, wf, "worker draws from its task's generator", okw, "make_full_samples_worker does not pass its task generator `%s` to batch_get_posterior_samples" % trng, key="worker-rng")
 
 
+def check_library_rng(ctx):
+    R = "C10-LIBRNG"
+    ctx.rule(R, "no function reachable from TheJoker's public methods or JokerPrior.sample constructs a scikit-learn estimator without random_state=: such an estimator "
+                "draws from (and advances) numpy's global RandomState.  (The stand-alone diagnostics is_P_Kmodal / is_P_unimodal are outside this clause as long as the "
+                "sampler does not call them with such an estimator.)")
+    from ..resolve import CallGraph
+    cg = CallGraph(ctx.prog)
+    roots = [(mn, q) for mn, q, f in ctx.prog.all_functions() if (mn == TJ and q.startswith("TheJoker.") and not q.split(".")[-1].startswith("__")) or (mn == PR and q == "JokerPrior.sample")]
+    reach = set(cg.reachable(roots)) | set(roots)
+    n = 0
+    for mn, q in sorted(reach):
+        if (mn, q) not in cg.funcs:
+            continue
+        f = cg.funcs[(mn, q)]
+        n += 1
+        sk = set()
+        for x in ast.walk(ctx.prog.modules[mn].tree):
+            if isinstance(x, ast.ImportFrom) and (x.module or "").split(".")[0] == "sklearn":
+                sk |= {a.asname or a.name for a in x.names}
+        for x in ast.walk(f):
+            if isinstance(x, ast.ImportFrom) and (x.module or "").split(".")[0] == "sklearn":
+                sk |= {a.asname or a.name for a in x.names}
+        for c in A.calls_in(f):
+            d = A.call_name(c) or ""
+            if (d in sk or d.split(".")[0] == "sklearn") and d.split(".")[-1][:1].isupper():
+                rs = A.get_arg(c, None, "random_state")
+                tags = classify(A.Flow(f).resolve(rs, at=A.enclosing_stmt(c)), f, None) if rs is not None else {"none"}
+                ctx.check(R, c, "estimator `%s` in %s is seeded from the sampler's generator" % (d, q), rs is not None and tags <= GOOD,
+                          "`%s` is reachable from the sampler and %s: it draws from numpy's global random state" % (A.unparse(c)[:60], "has no random_state" if rs is None else "random_state has provenance %s" % sorted(tags)),
+                          key="sk:%s:%s" % (q, d))
+    ctx.floor(R, n, 10)
+
+
 def run(ctx):
+    check_library_rng(ctx)
     check_global(ctx)
     check_prov(ctx)
     check_fwd(ctx)
     check_spawn(ctx)
     check_order(ctx)
+    from .C07 import _Relabel
+    from .C02 import check_api
+    ctx.rule("C10-BATCH", "which child stream a sample draws from depends on seed, inputs and the requested n_batches only: n_batches reaches run_worker as given "
+                          "(no clamp to the pool size on the way) (shared with C02-API).")
+    check_api(_Relabel(ctx, {"C02-API": "C10-BATCH"}))
     ctx.assume("SeedSequence.spawn(n) yields n distinct children and differs between successive calls on the same parent (numpy contract)")
     ctx.assume("numpy Generator streams are deterministic functions of their seed sequence")
     ctx.assume("pm.draw(random_seed=g) draws only from g")
